@@ -1321,6 +1321,16 @@ func genCase(t *rapid.T, part string) tcase {
 		return c
 	}
 	c.A = genList(t, "a")
+	if rapid.IntRange(0, 15).Draw(t, "wide") == 0 {
+		// long operands (an implementation may switch algorithm with the length): 20..90 elements over
+		// 0..50, plenty of repeats; the related operands below are then long as well
+		n := rapid.IntRange(20, 90).Draw(t, "wide_n")
+		c.A = make([]int, n)
+		for i := range c.A {
+			c.A[i] = rapid.IntRange(0, 50).Draw(t, "wide_a")
+		}
+		c.X = rapid.IntRange(0, 50).Draw(t, "wide_x")
+	}
 	c.B = genRelated(t, "b", c.A)
 	c.Poison = rapid.IntRange(0, 5).Draw(t, "poison") == 0
 	if part == "slices" && rapid.IntRange(0, 2).Draw(t, "usec") == 0 {
